@@ -465,6 +465,12 @@ func (p *Program) classifyReturn(r *ssa.Return, via *ssa.BasicBlock) retKind {
 // spills results to allocs in functions with defer, and for named results):
 // i.e. a load of it is an operand of a Return.
 func resultSlot(a *ssa.Alloc) bool {
+	// the slots go/ssa spills results into (functions with defer/recover) are anonymous; a named local — an `err`
+	// variable that lives on the heap because a function literal assigns it — is an ordinary variable even though it is
+	// loaded and returned
+	if a.Comment != "" {
+		return false
+	}
 	for _, u := range usesOf(a) {
 		ld, ok := u.(*ssa.UnOp)
 		if !ok || ld.Op != token.MUL {
